@@ -797,6 +797,10 @@ def eval_damaged_group(job):
             if can_remodel:
                 routes.append(("cli_remodel", lambda r: quiet(rr.main, [r, model, "-bn", NAME])))
             routes.append(("manager_from_before_the_damage", lambda r: stale.restore_backup(NAME, verbose=False)))
+            if job.get("quick") and only is None:
+                # quick tier: two of the routes per damaged state, rotating with the state and the tree
+                k0 = di + len(tree) + len(backed)
+                routes = [routes[k0 % len(routes)], routes[(k0 + 2) % len(routes)]]
             for route, fn in routes:         # one after the other in the same tree: the data is rewritten before each use
                 fails += _use_damaged(root, tree, backed, orig, dict(inp, route=route), fn, cls, route)
                 if read_backup(root, NAME) != after_damage:
@@ -921,7 +925,7 @@ def run(w: Workload):
                                  "sequences": seqs[i:i + n]})
             jobs.append({"kind": "crash", "tree": tree, "selection": selection})
             jobs.append({"kind": "overwrite", "tree": tree, "selection": selection})
-            jobs.append({"kind": "damaged", "tree": tree, "selection": selection})
+            jobs.append({"kind": "damaged", "tree": tree, "selection": selection, "quick": w.quick})
     import multiprocessing as mp
     nproc = min(14, max(1, (os.cpu_count() or 2) - 2))
     with mp.get_context("fork").Pool(nproc) as pool:
@@ -956,8 +960,9 @@ def run(w: Workload):
                  "file and at the deepest one in a sub-directory; an extra file in backup_root, in an existing and in a new "
                  "sub-directory of it, and next to backup_root; a record entry added for a copy that is not there (first / last); "
                  "record emptied, removed, cut (half, nothing, all but the last byte); backup_root emptied / removed; + the undamaged "
-                 "control.  Each state x {new BackupManager + get_backup, restore through a new manager, through the manager from "
-                 "before the damage, run_remodel_restore (all / task A), run_remodel} after the data was rewritten and one file deleted",
+                 "control.  Each state x {new BackupManager + get_backup} and x {restore through a new manager, through the manager from "
+                 "before the damage, run_remodel_restore (all / task A), run_remodel}%s after the data was rewritten and one file deleted"
+                 % (" (quick: two of these per state, rotating)" if w.quick else ""),
            exhaustive=True, listing_of_damaged=dict(sorted(damaged_verdicts.items())))
     w.not_covered += [
         "interruption of restore_backup or of the remodeler itself; concurrent managers (a manager whose listing is stale "
